@@ -62,4 +62,5 @@ def any(
     a = numpoly.aspolynomial(a)
     coefficients = numpy.any(numpy.asarray(a.coefficients), axis=0)
     index = numpy.asarray(coefficients, dtype=bool)
-    return numpy.any(index, axis=axis, out=out, keepdims=keepdims)
+    where = kwargs.get("where", True)
+    return numpy.any(index, axis=axis, out=out, keepdims=keepdims, where=where)
